@@ -62,6 +62,19 @@ CHECKS.append(
              "output of every state is judged by TLC against the step function, row count, monotonicity, cn(0) = 2 and cn1 + cn2 = cn clauses; random vectors up to length 12.",
      "note": "Purity on the threshold path not covered. BAF input judged only where the output baf column shows the chosen value. At an exact integer crossing with a "
              "non-power-of-two ratio both ceilings are accepted. Open finding F-C02-ploidy1-step-drop (the statement's 'hence' fails at ploidy 1)."})
+CHECKS.append(
+    {"id": "C11", "level": "exploration",
+     "technique": "TLA+ scenario grid + acceptance predicate (StepScenarios.tla): TLC-enumerated scenarios realised with seeded truncated-Gaussian noise, run through the real do_segmentation (haar, hmm-germline), every outcome judged by TLC",
+     "design_ref": "DESIGN.md section 8 C11, section 9, 13",
+     "text": "StepScenarios.tla defines the scenario space of the quantifier (method x step/flat x level x direction x 1..3 chromosomes x size, noise, weight and spacing "
+             "classes incl. one centromere-sized gap), the premise that the realised profile lies inside it, and the clauses of the property (exactly one breakpoint per "
+             "stepped chromosome, within 5 bins of the true one by probes and by coordinates, segment means within 0.1, one segment per arm on flat profiles). TLC enumerates "
+             "the grid (8640 scenarios; quick tier a diagonal shard of 2160) and checks that the predicate accepts the ideal outcome, accepts outcomes at the tolerances and "
+             "rejects outcomes just beyond; each scenario is realised from a seeded generator and run through the unmodified do_segmentation; TLC judges every recorded outcome.",
+     "note": "Exploration, not model checking: the detectors (HaarSeg, HMM, Savitzky-Golay) are not modelled; no claim over all noise realisations. Calibrated on the "
+             "unchanged tree: 47 520 realisations, 0 failures. Noise Gaussian truncated at 3 sd, independent of weight; bin spacing < 1e5 except one declared arm gap "
+             "(>= 100 bins from the step); boundaries at the arm gap are not counted as breakpoints. Trusted: TLC, the harness summary of the input table, milli-unit "
+             "rounding of segment means."})
 
 _ALL = [f"C{n:02d}" for n in range(1, 21)]
 _claimed = {c["id"] for c in CHECKS}
